@@ -34,7 +34,7 @@ enum EO {
 }
 
 fn search_paths() -> Vec<String> {
-    vec!["/repo/resources/tests".to_string(), "/repo/resources/tests/bridge-includes".to_string(), "/repo/resources/tests/strict/includes".to_string(), "/repo/resources/tests/lib".to_string()]
+    crate::subject::repo_search_paths()
 }
 
 fn opts_for(name: &str, extra_dir: Option<&str>) -> Rc<dyn CompilerOpts> {
@@ -364,7 +364,7 @@ pub fn seeds() -> Vec<(String, String)> {
 
 pub fn shipped_seeds(max_bytes: usize, limit: usize) -> Vec<(String, String)> {
     let mut out = vec![];
-    let mut stack = vec![std::path::PathBuf::from("/repo/resources/tests")];
+    let mut stack = vec![std::path::PathBuf::from(format!("{}/resources/tests", crate::subject::repo_root()))];
     let mut files = vec![];
     while let Some(d) = stack.pop() {
         if let Ok(rd) = std::fs::read_dir(&d) {
